@@ -391,6 +391,17 @@ func RestartVariant(base *Scenario, rng *rand.Rand, p float64, desc string) *Var
 	return withRestarts(base, at, desc)
 }
 
+// EveryNthRestart restarts replica B after every n-th commit (starting with the `first`-th).
+func EveryNthRestart(base *Scenario, n, first int, desc string) *Variant {
+	at := map[int]bool{}
+	for i, b := range boundaries(base) {
+		if i >= first && (i-first)%n == 0 {
+			at[b] = true
+		}
+	}
+	return withRestarts(base, at, desc)
+}
+
 // RestartVariants: every single boundary; with full also every pair of boundaries of short
 // histories and random subsets.
 func RestartVariants(base *Scenario, rng *rand.Rand, budget int, full bool) []*Variant {
